@@ -533,5 +533,5 @@ func tarOracle(c TarCase) (evid.Info, error) {
 }
 
 func TestC20HostileTar(t *testing.T) {
-	evid.Prop(t, "hostile_tar", evid.R.N(2500, 10000), genTarCase, tarOracle)
+	evid.Prop(t, "hostile_tar", evid.R.N(2500, 8000), genTarCase, tarOracle)
 }
